@@ -143,7 +143,7 @@ theorem spaceCodes_unrecognised (g : Img) (xyz : Mat)
     (h4 : ∀ p ∈ xformSpaces, inSpace (g.outNames.take 3) p.1 = false)
     (hplain : strict = true ∨ g.outNames.take 3 ≠ ["x", "y", "z"])
     (hunk : inSpace (g.outNames.take 3) "unknown" = false) :
-    spaceCodes strict sq g xyz = .error .nifti := by
+    spaceCodes strict sq g xyz = .error (.nifti .world) := by
   unfold spaceCodes
   have hf : xformSpaces.find? (fun p => inSpace (g.outNames.take 3) p.1) = none := by
     rw [List.find?_eq_none]; intro p hp; simp [h4 p hp]
